@@ -1,3 +1,4 @@
--- expect-wf: bad no loop to break
+-- expect-wf[jit]: bad no loop to break
+-- expect-wf[5.3]: bad break outside a loop
 print(1)
 if true then break end
